@@ -144,4 +144,17 @@ CHECKS = {
         technique='static sibling-agreement over expanded canonical expressions and a CFG cycle rule for the unlink loop',
         design_ref='4-C05',
     ),
+    'C10': dict(
+        category='other',
+        text='Decides the index-discipline and configuration clauses, not array behaviour over histories: V1 element size, growth '
+             'options and initial capacity are immutable after construction (who-may-write); IDX every one of the 10 element-address '
+             'computations is reached only with 0 <= E and E < num (<= num for insertion) proven on all paths from dominating '
+             'comparisons whose signed/unsigned domain is read from the type-checked AST (the int vs size_t comparison is exactly '
+             'what rejects negative indexes) and from definition-based bounds of loop variables; VC the element count moves exactly '
+             'once per insertion / successful removal shift on every path; M1 in-place shifts use overlap-safe copies.',
+        note='Capacity (max >= num after growth) and the growth-policy arithmetic are not proved; functional results over histories '
+             'are not decided.',
+        technique='static must-fact (dominating comparison) dataflow with signedness from the type-checked AST, who-may-write rule, count typestate',
+        design_ref='4-C10',
+    ),
 }
